@@ -255,6 +255,10 @@ func (s *Synchronizer) advanceView(syncInfo hotstuff.SyncInfo) {
 		s.logger.Infof("advanceView: Failed to verify sync info: %v", err)
 		return
 	}
+	if tc, ok := syncInfo.TC(); ok {
+		// remember the verified TC so that our own timeout messages let replicas in earlier views catch up
+		s.state.UpdateHighTC(tc)
+	}
 	if qc != nil {
 		updated, err := s.state.UpdateHighQC(*qc)
 		if err != nil {
